@@ -128,6 +128,7 @@ def gen_hist(ctx):
         S = g.r.choice([0, 1, 2, 5])
         n = g.r.randint(1, 60)
         ops = []
+        S0 = S
         for _ in range(n):
             x = g.r.random()
             if x < 0.5:
@@ -136,16 +137,39 @@ def gen_hist(ctx):
                 ops.append("s%d" % g.r.choice([0, 1, 2, 3, 4, 5, 7, 29, 30, 31, 40, g.r.randint(0, 35)]))
             elif x < 0.8:
                 ops.append("g")
-            elif x < 0.86:
+            elif x < 0.85:
                 ops.append("d")
-            elif x < 0.92:
+            elif x < 0.90:
                 ops.append("i")
-            elif x < 0.96:
+            elif x < 0.93:
                 ops.append("c")
-            else:
+            elif x < 0.95:
                 ops.append("m0")
+            else:
+                # move ASSIGNMENT from / into a buffer of another state size, content and window; the buffer in use afterwards
+                # has the SOURCE's state size
+                S2 = g.r.choice([s2 for s2 in (0, 1, 2, 3, 4, 5, 7) if s2 != S])
+                cnt, w = g.r.choice([0, 1, 3, 6, 31]), g.r.choice([0, 0, 2, 3, 30])
+                if g.r.random() < 0.6:
+                    ops.append("M%d_%d_%d" % (S2, cnt, w))
+                    S = S2
+                    ops.append("g")
+                else:
+                    ops.append("T%d_%d_%d" % (S2, cnt, w))
         ops.append("g")
-        out.append(("b_hist %d %s" % (S, " ".join(ops)), "hist"))
+        out.append(("b_hist %d %s" % (S0, " ".join(ops)), "hist"))
+    # hand-over between buffers differing in state size (smaller / larger), content (empty / shorter / longer than the window) and window
+    for S in (2, 4):
+        for S2 in (1, 2, 3, 4, 6):
+            if S2 == S:
+                continue
+            for fill in (0, 2, 6):
+                for cnt in (0, 3, 7):
+                    for w in (0, 2):
+                        pre = ["a%d" % S] * fill
+                        out.append(("b_hist %d %s M%d_%d_%d g a%d g a%d a%d a%d a%d a%d g" % (S, " ".join(pre), S2, cnt, w, S2, S2, S2, S2, S2, S2), "hist"))
+                        out.append(("b_hist %d %s T%d_%d_%d g a%d g a%d a%d a%d a%d a%d g" % (S, " ".join(pre), S2, cnt, w, S, S, S, S, S, S), "hist"))
+            out.append(("b_hist %d a%d M%d_3_0 a%d g" % (S, S, S2, S), "hist"))       # used with the OLD size after the hand-over: outside the precondition
     # invalid side: wrong element size, use of a moved-from buffer
     for bad in (["a2", "g"], ["a3", "a4", "g"], ["a3", "m1", "s5", "a3", "g"], ["a3", "m1", "a3", "g"], ["a0", "g"], ["a4", "a3", "a3", "a3", "a3", "a3", "g"]):
         out.append(("b_hist 3 %s" % " ".join(bad), "hist"))
@@ -625,6 +649,52 @@ def gen_filters(ctx):
 GENERATORS.append(gen_filters)
 
 
+def gen_handover(ctx):
+    """checklist g: objects of DIFFERENT configuration handed over by move / copy assignment and construction, both used before, the
+    receiver used afterwards with the source's sizes (every class with a hand-written move / copy operation that C14 drives)"""
+    out = []
+    pairs = [(2, 3), (3, 2), (1, 4), (4, 1)]
+    for cls in (0, 1, 2, 7):
+        for (a, b) in pairs:
+            for kind in (0, 1):
+                for N in (1, 3):
+                    out.append(("b_handover %d %d %d 0 %d 0 %d" % (cls, kind, a, b, N), "handover"))
+    for (a, b) in ((1, 2), (2, 1), (1, 3), (3, 1), (2, 3), (3, 2)):
+        for kind in (0, 1):
+            for N in (1, 3):
+                out.append(("b_handover 3 %d %d 0 %d 0 %d" % (kind, a, b, N), "handover"))
+                for (ha, hb) in ((1, 2), (2, 1)):
+                    out.append(("b_handover 5 %d %d %d %d %d %d" % (kind, a, ha, b, hb, N), "handover"))
+    for (sa, ma, sb, mb) in ((2, 1, 4, 2), (4, 2, 2, 1), (3, 3, 1, 1), (1, 1, 3, 2)):
+        for kind in (0, 1):
+            for N in (1, 4):
+                out.append(("b_handover 4 %d %d %d %d %d %d" % (kind, sa, ma, sb, mb, N), "handover"))
+    for (ga, ra, gb, rb) in ((2, 5, 3, 2), (3, 2, 2, 5), (1, 9, 4, 0), (4, 0, 1, 9), (2, 5, 2, 7)):
+        for kind in (0, 1):
+            for N in (4, 8, 10):
+                out.append(("b_handover 6 %d %d %d %d %d %d" % (kind, ga, ra, gb, rb, N), "handover"))
+    for (la, ca, lb, cb) in ((1, 1, 3, 1), (3, 1, 1, 1), (2, 0, 4, 0), (4, 0, 2, 0), (2, 0, 1, 1), (0, 2, 3, 0), (1, 0, 0, 3)):
+        for kind in (0, 1):
+            for meth in range(0, 12):
+                out.append(("b_handover 8 %d %d %d %d %d %d" % (kind, la, ca, lb, cb, meth), "handover"))
+    for cls in (9, 10, 11):
+        for (n, m) in ((3, 2), (2, 1), (4, 3), (1, 1)):
+            for N in (1, 2):
+                out.append(("b_handover %d 1 0 0 %d %d %d" % (cls, n, m, N), "handover"))
+    for cls in (12, 13):
+        for (la, ca, lb, cb) in ((1, 1, 3, 0), (3, 0, 1, 1), (2, 2, 1, 0), (1, 0, 2, 2), (0, 1, 4, 1)):
+            for kind in (0, 1, 2, 3):
+                for N in (1, 3):
+                    out.append(("b_handover %d %d %d %d %d %d %d" % (cls, kind, la, ca, lb, cb, N), "handover"))
+    for kind in (0, 1, 2, 3):
+        for N in (1, 4):
+            out.append(("b_handover 14 %d 0 0 3 0 %d" % (kind, N), "handover"))
+    return out
+
+
+GENERATORS.append(gen_handover)
+
+
 # --------------------------------------------------------------------------- running
 
 def par_harness(binary, lines, jobs=8):
@@ -716,6 +786,11 @@ def finding_key(line, group):
         return "sukf-correct:abort-on-valid"
     if t[0] == "b_psaddself":
         return "psadd-self-alias"
+    if t[0] == "b_handover":
+        names = ["KFPrediction", "UKFPrediction", "GPFPrediction", "DrawParticles", "BootstrapCorrection", "GPFCorrection", "ResamplingWithPrior", "LTIStateModel",
+                 "EstimatesExtraction", "UKFCorrection", "SUKFCorrection", "KFCorrection", "ParticleSet", "GaussianMixture", "Resampling"]
+        c = int(t[1])
+        return "handover-%s:abort-on-valid" % (names[c] if c < len(names) else "?")
     return "%s:abort-on-valid" % group
 
 
@@ -757,7 +832,15 @@ def branch_tags(line, group, hk, hp):
         elif group == "hist":
             w, n = 5, 0
             for op in t[2:]:
-                k, a = op[0], int(op[1:] or 0)
+                k = op[0]
+                if k in "MT":
+                    s2, cnt, w2 = [int(x) for x in op[1:].split("_")]
+                    tags.append("move assignment %s a buffer of another state size" % ("from" if k == "M" else "into"))
+                    if k == "M":
+                        w = 5 if w2 == 0 else (2 if w2 < 2 else min(w2, 30))
+                        n = min(cnt, w)
+                    continue
+                a = int(op[1:] or 0)
                 if k == "a":
                     n += 1
                     if n > w:
@@ -921,6 +1004,7 @@ ENTRY = {
     "linprop": "LinearStateModel::propagate", "kfp": "KFPrediction::predict", "gpfp": "GPFPrediction::predict", "ukfp_gen": "UKFPrediction::predict (generic)",
     "ukfp_add": "UKFPrediction::predict (additive)", "draw": "DrawParticles::predict", "glik": "GaussianLikelihood::likelihood",
     "boot": "BootstrapCorrection::correct/getLikelihood", "gpfc": "GPFCorrection::correct", "sis": "SIS (initialisation + filtering steps, real thread)",
+    "handover": "object handed over by move / copy (source of another configuration), then used",
     "psaddself": "ParticleSet::operator+= (a += a)", "gmaugalias": "GaussianMixture::augmentWithNoise(own covariance block)",
 }
 
